@@ -392,9 +392,9 @@ def gen_arc(r, cid, nops, opts):
 # W-TinyLFU
 # ---------------------------------------------------------------------------------------------
 def gen_wtinylfu(r, cid, nops, opts):
-    w = r.weighted([(1, 4), (2, 3), (3, 1)])
-    q = r.weighted([(1, 4), (2, 3), (3, 1)])
-    p = r.weighted([(1, 4), (2, 3), (3, 1)])
+    w = r.weighted([(1, 4), (2, 3), (3, 1), (r.rng(4, 7), 1)])
+    q = r.weighted([(1, 4), (2, 3), (3, 1), (r.rng(4, 7), 1)])
+    p = r.weighted([(1, 4), (2, 3), (3, 1), (r.rng(4, 7), 1)])
     samples = r.weighted([(r.rng(1, 8), 3), (r.rng(9, 32), 3), (r.rng(33, 64), 1), (r.rng(65, 400), 2)])   # > ~53: doorkeeper above its 512-bit floor
     fp = r.pick([0.01, 0.1, 0.5, 0.001])
     U = w + q + p + 1 + r.below(4)
@@ -428,7 +428,7 @@ def gen_wtinylfu(r, cid, nops, opts):
 # TinyLFU
 # ---------------------------------------------------------------------------------------------
 def gen_tinylfu(r, cid, nops, opts):
-    size = r.weighted([(1, 2), (2, 2), (r.rng(3, 16), 4), (r.rng(17, 64), 2)])
+    size = r.weighted([(1, 2), (2, 2), (r.rng(3, 16), 4), (r.rng(17, 64), 2), (r.rng(65, 2000), 1)])
     samples = r.weighted([(1, 1), (2, 1), (r.rng(3, 16), 4), (r.rng(17, 64), 3), (r.rng(65, 600), 2)])
     fp = r.pick([0.01, 0.1, 0.5, 0.001, 0.999, 1e-9])
     lines = ["case %d tinylfu size=%d samples=%d fp=%s" % (cid, size, samples, f64bits(fp))]
